@@ -30,6 +30,18 @@ Definition np_hstack (w : nat) (blocks : list mat) : mat :=
 Definition var_ddof (k : nat) (l : list F) : F :=
   let mu := mean F l in lsumF F (map (fun x => (x - mu) * (x - mu)) l) / of_nat F (length l - k).
 
+(* num_outcomes(schedule_index) of the four tomography classes.  A schedule is the list of the INDICES of its items
+   ([state index; povm index] for QST / POVMT, [state index; gate / mprocess index; povm index] for QPT / QMPT); povm_len i is the
+   number of outcomes of tester POVM i, mo the number of outcomes of the estimated POVM / MProcess.  The distribution of schedule j has
+   as many entries as the POVM NAMED in schedule j (times mo for a measurement process). *)
+Definition num_outcomes_spec (ty : ttype) (sched : nat -> list nat) (povm_len : nat -> nat) (mo j : nat) : nat :=
+  match ty with
+  | QST => povm_len (nth 1 (sched j) O)
+  | POVMT => mo
+  | QPT => povm_len (nth 2 (sched j) O)
+  | QMPT => (povm_len (nth 2 (sched j) O) * mo)%nat
+  end.
+
 (* ---- specifications ---- *)
 (* calc_direct_sum: ValueError (1) at the first entry that is not 2-dimensional, ValueError (2) at the first non-square entry
    (checked per entry in this order), otherwise the direct sum *)
